@@ -67,6 +67,11 @@ CHECKS = {
    technique="deterministic simulation: real chain indexer, bloom indexer, matcher and filter over a simulated node on the fake clock, gate-scheduled bloom retrieval servers (seeded order/delay of answers, cancellation), brute-force receipt scan and independent bloom function as oracles",
    text="(a) For every receipt and header of every generated universe, every address and topic of every log tests positive in the receipt and block bloom under an independent 3x11-bit bloom function. (b) Filter.Logs for generated criteria and ranges equals a brute-force scan of the oracle node's canonical receipts in chain order - under every sampled retrieval schedule, while the index is behind the head, across the indexed/unindexed boundary and after reorganisations that invalidate sections; cancelled queries may only return a prefix of the exact answer; a query that never returns once every server was released is a violation.",
    note="Trusted: synctest, harness, brute-force matcher. The retrieval service is a stub mirroring aqua.startBloomHandlers; the indexer's confirmation depth is lowered through a verif-only constructor so that short chains reach indexed sections."),
+
+ "C17": dict(engine="netsim", category="exploration", design_ref="§3 C17",
+   technique="deterministic simulation: real discovery tables, RLPx servers and sub-protocol handler on in-memory transports under the fake clock with injected loss-free but hostile traffic (crafted/signed datagrams, byte flips/drops/inserts/closes/stalls at chosen stream offsets, damaged protocol messages, failing payload readers); crash-of-process, wedge, prefix-integrity and size-limit oracles",
+   text="(a) Two complete p2p.Servers perform the real encryption and protocol handshakes over a link that fragments the stream and damages one byte position: what the receiver's protocol is handed must be a byte-identical prefix of what the sender wrote, fault-free sessions deliver everything, and after every timeout no half-open session remains. (b) Real discovery tables receive attacker datagrams of 11 kinds including correctly hashed and signed ones with short, malformed or oversized bodies: no crash (a panic on a node goroutine kills the worker and the driver reports the plan as a process-crash violation) and a fresh valid ping is still answered within the reply timeout. (c) The real aqua handler gets a (possibly broken) status handshake and damaged messages of every code: no crash, no payload byte of a message announcing more than the 10 MiB limit is read, writes are consumed or the peer is dropped within 30 simulated seconds, and the handler returns within 60 s after the peer closes.",
+   note="Trusted: synctest, harness, own packet/RLP crafting. Interleaving inside the servers between quiescence points is the runtime's (one P per worker); the oracles hold under any interleaving. Attribution of mutated datagrams to keys and 16 MiB frames are only in the thorough tier's reach; full-stack multi-node convergence under attack is not implemented."),
 }
 
 def main():
@@ -85,6 +90,7 @@ def main():
         {"name": "chainsim", "path": "sim/chainsim", "serves_properties": [p for p in sorted(CHECKS) if p in ("C01","C02","C03","C04","C05","C06","C13","C15","C16")], "kind_free_text": "real core.BlockChain nodes on simulated disks in a synctest bubble; universe built by the repo's block builder; stub gossip"},
         {"name": "schedsim", "path": "sim/schedsim", "serves_properties": [p for p in sorted(CHECKS) if p in ("C13","C14","C15","C16","C19")], "kind_free_text": "gate scheduler: real goroutines parked on channels, one released at a time from the plan, synctest.Wait as quiescence barrier"},
         {"name": "storesim", "path": "sim/storesim", "serves_properties": [p for p in sorted(CHECKS) if p in ("C09","C10","C20")], "kind_free_text": "model-based operation histories over trie / StateDB / key files on the simulated disk"},
+        {"name": "netsim", "path": "sim/netsim", "serves_properties": [p for p in sorted(CHECKS) if p in ("C17",)], "kind_free_text": "in-memory datagram network, buffered stream connections with a fault-injecting link, attacker packet crafting; real discovery, RLPx and aqua handler"},
         {"name": "refmodel", "path": "sim/refmodel", "serves_properties": sorted(CHECKS), "kind_free_text": "independent reference models (RLP, Merkle-Patricia root and traversal, ...)"},
      ],
      "checks": [],
